@@ -267,10 +267,14 @@ def check_key_ops(ctx):
     uses = [None, "sig", "enc", "other", ""]
     opsets = [None, [], ["sign"], ["verify"], ["sign", "verify"], ["encrypt", "decrypt"], ["wrapKey", "unwrapKey"], ["verify", "encrypt"]]
     ops = ["sign", "verify", "encrypt", "decrypt", "wrapKey", "unwrapKey"]
-    for kid, public in (("oct1", False), ("rsa1", False), ("rsa1", True), ("p256", True), ("ed25519", False)):
+    for kid, public in (("oct1", False), ("rsa1", False), ("rsa1:no-crt", False), ("rsa1", True), ("p256", True), ("p256", False), ("ed25519", False)):
         for use in uses:
             for key_ops in opsets:
-                d = dict(R.material(kid + (".pub" if public else ""), "jwk"))
+                d = dict(R.material(kid.split(":")[0] + (".pub" if public else ""), "jwk"))
+                if kid.endswith(":no-crt"):
+                    # RFC 7518 section 6.3.2: a private RSA JWK may carry d alone; the library rebuilds the other members
+                    for crt in ("p", "q", "dp", "dq", "qi"):
+                        d.pop(crt, None)
                 d.pop("use", None)
                 d.pop("key_ops", None)
                 if use is not None:
@@ -290,16 +294,44 @@ def check_key_ops(ctx):
                     ctx.case(case, ("keyop", kid, public, use, json.dumps(key_ops), op), "key_op:" + real)
                     ctx.compare("check_key_op", case, real, m.call("kp_check_key_op", {"key_ops": key_ops, "use": use,
                                                                                        "public_only": public and kid != "oct1", "op": op}))
-    # end to end: a verification key restricted to encryption, or without "verify" among its key_ops, never verifies
+    # end to end: a verification key restricted to encryption, or without "verify" among its key_ops, never verifies -- for every
+    # form in which a JWK can be written (symmetric; RSA public, private with and without the CRT members; EC; OKP)
     jws = JsonWebSignature()
-    tok = jws.serialize_compact({"alg": "HS256"}, b"p", R.material("oct1", "raw"))
-    for restr in ({"use": "enc"}, {"key_ops": ["sign"]}, {"key_ops": []}, {"use": "sig", "key_ops": ["encrypt"]}):
-        d = dict(R.material("oct1", "jwk"), **restr)
+    forms = [("HS256", "oct1", "oct1", None), ("RS256", "rsa1", "rsa1.pub", None), ("RS256", "rsa1", "rsa1", None), ("RS256", "rsa1", "rsa1", ("p", "q", "dp", "dq", "qi")),
+             ("ES256", "p256", "p256.pub", None), ("ES256", "p256", "p256", None), ("EdDSA", "ed25519", "ed25519", None)]
+    for alg, signer, vkey, strip in forms:
+        tok = jws.serialize_compact({"alg": alg}, b"p", R.material(signer, "key"))
+        base = dict(R.material(vkey, "jwk"))
+        for member in (strip or ()):
+            base.pop(member, None)
         try:
-            jws.deserialize_compact(tok, d)
-            ctx.violation("C02:restriction-ignored:%s" % json.dumps(restr, sort_keys=True), "a key restricted by use / key_ops was used to verify", {"restriction": restr})
-        except Exception:  # noqa: BLE001
-            ctx.count("restricted-key:refused")
+            jws.deserialize_compact(tok, dict(base))
+        except Exception as e:  # noqa: BLE001
+            ctx.violation("C02:unrestricted-key-refused:%s:%s" % (alg, vkey), "a token did not verify under its own unrestricted JWK (%s)" % type(e).__name__, {"alg": alg, "key": vkey, "stripped": strip})
+        for restr in ({"use": "enc"}, {"key_ops": ["sign"]}, {"key_ops": []}, {"use": "sig", "key_ops": ["encrypt"]}):
+            d = dict(base, **restr)
+            case = {"alg": alg, "key": vkey, "stripped": list(strip or ()), "restriction": restr}
+            ctx.case(case, ("restricted", alg, vkey, bool(strip), json.dumps(restr, sort_keys=True)), "restricted-key")
+            try:
+                jws.deserialize_compact(tok, d)
+                ctx.violation("C02:restriction-ignored:%s" % json.dumps(restr, sort_keys=True), "a key restricted by use / key_ops was used to verify", case)
+            except Exception:  # noqa: BLE001
+                ctx.count("restricted-key:refused")
+        # the kid of the JWK is the kid the key set selects by
+        for fmt in ("dict", "keyset"):
+            ks_d = {"keys": [dict(base, kid="wanted"), dict(R.material("oct2", "jwk"), kid="other")]}
+            hdr_tok = jws.serialize_compact({"alg": alg, "kid": "wanted"}, b'{"a":1}', R.material(signer, "key"))
+            nokid_tok = jws.serialize_compact({"alg": alg}, b'{"a":1}', R.material(signer, "key"))
+            keyarg = ks_d if fmt == "dict" else JsonWebKey.import_key_set(ks_d)
+            for lab, t, want in (("kid-names-it", hdr_tok, True), ("no-kid-two-keys", nokid_tok, False)):
+                try:
+                    JsonWebToken([alg]).decode(t, keyarg)
+                    ok = True
+                except Exception:  # noqa: BLE001
+                    ok = False
+                if ok != want:
+                    ctx.violation("C02:kid:jwk-kid-not-kept:%s:%s" % (lab, "accepted" if ok else "refused"),
+                                  "selection by kid does not follow the kid written in the JWK (%s, key set as %s)" % (lab, fmt), {"alg": alg, "key": vkey, "stripped": list(strip or ())})
 
 
 KINDS = {"oct1": ("oct", ""), "rsa1": ("RSA", ""), "p256": ("EC", "P-256"), "p384": ("EC", "P-384"), "p521": ("EC", "P-521"), "k256": ("EC", "secp256k1"),
